@@ -67,6 +67,9 @@ def corpus_functions(binary, limit_len=220, max_files=None, rnd=None):
         files = rnd.sample(files, max_files)
     cases = [{"id": "file:" + os.path.relpath(f, "/repo/laythe_vm/fixture"), "src": open(f).read(), "sym": True}
              for f in files]
+    import gen
+    n_gen = 300 if max_files else 6000
+    cases += [{"id": gid, "src": src, "sym": True} for gid, src in gen.family_sources(rnd or random.Random(vlib.seed()), n_gen)]
     res = vlib.run_batch(binary, cases, subcmd="dump", per_case_timeout=30)
     pairs = []
     for c in cases:
